@@ -11,7 +11,11 @@ import Dashu.Props.GenInt
   is guaranteed (and exhibit the inputs where it is not — those are findings about the code).
   (3) That the implementation really has no other forms, and that each form computes what its body
   says, is the correspondence run over the table generated from the macro-expanded crate
-  (`vlib/forms.py`: 1720 impls of dashu-int, every one called on every case).
+  (`vlib/forms.py`: 1720 impls of dashu-int, every one called on every case; since round 3 also the
+  212 impls of dashu-ratio and the 606 impls of dashu-float (at two (mode, base) instantiations, with the
+  `Context::op` method form at `Context::max` precision added by name) — for those only mutual agreement
+  is required here, their values belong to C03/C04).  (4) The trait-method forms `div_rem`,
+  `div_rem_euclid` are proved equal to the pair of operator forms.
 -/
 namespace Dashu.Props.C15
 
@@ -70,5 +74,77 @@ theorem ibig_ring_forms_agree (s0 s1 : Dashu.Sign) (m0 m1 : Int) (h0 : 0 ≤ m0)
     Dashu.Gen.impl_ibig_mul s0 m0 s1 m1 = s0.apply m0 * s1.apply m1 :=
   ⟨GenInt.ibig_add_exact s0 s1 m0 m1 h0 h1, GenInt.ibig_sub_exact s0 s1 m0 m1 h0 h1,
    GenInt.ibig_mul_exact s0 s1 m0 m1 h0 h1⟩
+
+open Dashu.Gen
+
+/-- trait-method form vs operator forms: `a.div_rem(b)` on IBig returns exactly the pair
+    (`a / b`, `a % b`) of the operator bodies -/
+theorem ibig_divrem_is_div_and_rem (s0 s1 : Dashu.Sign) (m0 m1 : Int) (h0 : 0 ≤ m0) (h1 : 0 < m1) :
+    impl_ibig_divrem s0 m0 s1 m1 = (impl_ibig_div s0 m0 s1 m1, impl_ibig_rem s0 m0 s1 m1) := by
+  rw [GenInt.ibig_divrem_exact s0 s1 m0 m1 h0 h1, GenInt.ibig_div_exact s0 s1 m0 m1 h0 h1,
+    GenInt.ibig_rem_exact s0 s1 m0 m1 h0 h1]
+
+/-- `a.div_rem_euclid(b)` = (`a.div_euclid(b)`, `a.rem_euclid(b)`) -/
+theorem ibig_divrem_euclid_is_div_and_rem (s0 s1 : Dashu.Sign) (m0 m1 : Int) (h0 : 0 ≤ m0) (h1 : 0 < m1) :
+    impl_ibig_divrem_euclid s0 m0 s1 m1
+      = (impl_ibig_div_euclid s0 m0 s1 m1, impl_ibig_rem_euclid s0 m0 s1 m1) := by
+  rw [GenInt.ibig_divrem_euclid_exact s0 s1 m0 m1 h0 h1, GenInt.ibig_div_euclid_exact s0 s1 m0 m1 h0 h1,
+    GenInt.ibig_rem_euclid_exact s0 s1 m0 m1 h0 h1]
+
+/-- the mixed form `UBig.div_rem(IBig)`: its remainder is `UBig % IBig`, and both are what the
+    IBig forms give on the converted left operand -/
+theorem ubig_ibig_forms_agree (s1 : Dashu.Sign) (m0 m1 : Int) (h0 : 0 ≤ m0) (h1 : 0 < m1) :
+    (impl_ubig_ibig_divrem .Positive m0 s1 m1).2 = impl_ubig_ibig_rem .Positive m0 s1 m1 ∧
+    impl_ubig_ibig_divrem .Positive m0 s1 m1 = impl_ibig_divrem .Positive m0 s1 m1 ∧
+    impl_ubig_ibig_rem .Positive m0 s1 m1 = impl_ibig_rem .Positive m0 s1 m1 := by
+  rw [GenInt.ubig_ibig_divrem_exact s1 m0 m1 h0 h1, GenInt.ubig_ibig_rem_exact s1 m0 m1 h0 h1,
+    GenInt.ibig_divrem_exact .Positive s1 m0 m1 h0 h1, GenInt.ibig_rem_exact .Positive s1 m0 m1 h0 h1]
+  simp [Dashu.Sign.apply]
+
+/-- `iN / IBig` fits `iN` for every operand pair except `iN::MIN / -1` -/
+theorem signed_div_ibig_fits (p b : Int) (k : Nat) (hlo : -(2 ^ k : Int) ≤ p) (hhi : p ≤ 2 ^ k - 1)
+    (hb : b ≠ 0) (hne : ¬ (p = -(2 ^ k : Int) ∧ b = -1)) :
+    primForm (-(2 ^ k : Int)) (2 ^ k - 1) (Int.tdiv p b) = some (Int.tdiv p b) := by
+  unfold primForm
+  have hq : (Int.tdiv p b).natAbs = p.natAbs / b.natAbs := Int.natAbs_tdiv p b
+  have hb1 : 1 ≤ b.natAbs := by omega
+  have hle : p.natAbs / b.natAbs ≤ p.natAbs := Nat.div_le_self _ _
+  have hK : (0 : Int) < 2 ^ k := by positivity
+  by_cases hb2 : 2 ≤ b.natAbs
+  · have hlt : p.natAbs / b.natAbs < p.natAbs ∨ p.natAbs = 0 := by
+      rcases Nat.eq_zero_or_pos p.natAbs with h | h
+      · exact Or.inr h
+      · exact Or.inl (Nat.div_lt_self h hb2)
+    rw [if_pos ⟨by omega, by omega⟩]
+  · have hb' : b = 1 ∨ b = -1 := by omega
+    rcases hb' with rfl | rfl
+    · rw [Int.tdiv_one]; rw [if_pos ⟨hlo, hhi⟩]
+    · have : Int.tdiv p (-1) = -p := by rw [Int.tdiv_neg, Int.tdiv_one]
+      rw [this]
+      have : p ≠ -(2 ^ k : Int) := fun h => hne ⟨h, rfl⟩
+      rw [if_pos ⟨by omega, by omega⟩]
+
+/-- FINDING (C15): `uN / IBig` with a negative divisor leaves the unsigned range -/
+theorem unsigned_div_negative_ibig_counterexample :
+    primForm 0 255 (Int.tdiv 8 (-8)) = none ∧ Int.tdiv 8 (-8) = -1 := by decide
+
+-- non-vacuity: every hypothesis set above is satisfiable on a non-trivial value
+example : primForm 0 255 (Int.tmod 1000 7) = some 6 := ubig_rem_unsigned_fits 1000 7 255 (by decide) (by decide) (by decide)
+example : primForm (-128) 127 (Int.tmod (-1000) (-128)) = some (-104) :=
+  ibig_rem_signed_fits (-1000) (-128) 7 (by decide) (by decide) (by decide)
+example : primForm 0 255 (Int.tdiv 200 7) = some 28 := unsigned_div_ubig_fits 200 7 255 (by decide) (by decide) (by decide)
+example : primForm (-128) 127 (Int.tdiv (-128) 1) = some (-128) :=
+  signed_div_ibig_fits (-128) 1 7 (by decide) (by decide) (by decide) (by decide)
+example : primForm (-128) 127 (Int.tdiv (-127) (-1)) = some 127 :=
+  signed_div_ibig_fits (-127) (-1) 7 (by decide) (by decide) (by decide) (by decide)
+example : impl_ibig_add .Negative 5 .Positive 3 = -2 ∧ impl_ibig_sub .Negative 5 .Positive 3 = -8 ∧
+    impl_ibig_mul .Negative 5 .Positive 3 = -15 :=
+  ibig_ring_forms_agree .Negative .Positive 5 3 (by decide) (by decide)
+example : impl_ibig_divrem .Negative 7 .Positive 3 = (-2, -1) := by
+  rw [ibig_divrem_is_div_and_rem .Negative .Positive 7 3 (by decide) (by decide)]; decide
+example : impl_ibig_divrem_euclid .Negative 7 .Positive 3 = (-3, 2) := by
+  rw [ibig_divrem_euclid_is_div_and_rem .Negative .Positive 7 3 (by decide) (by decide)]; decide
+example : (impl_ubig_ibig_divrem .Positive 7 .Negative 3).2 = impl_ubig_ibig_rem .Positive 7 .Negative 3 :=
+  (ubig_ibig_forms_agree .Negative 7 3 (by decide) (by decide)).1
 
 end Dashu.Props.C15
